@@ -132,14 +132,14 @@ def model_parse_many(docstrings, fn='parse', max_rounds=600):
 # ---------------------------------------------------------------------------
 # canonical form of the implementation's result
 # ---------------------------------------------------------------------------
-def impl_parse(docstring):
+def impl_parse(docstring, simulate_repl=False):
     """canonical result of DoctestParser().parse, in the same shape as the model's answer"""
     from xdoctest import parser, exceptions
     import signal
     with warnings.catch_warnings():
         warnings.simplefilter('ignore')
         try:
-            parts = parser.DoctestParser().parse(docstring)
+            parts = (parser.DoctestParser(simulate_repl=True) if simulate_repl else parser.DoctestParser()).parse(docstring)
         except exceptions.DoctestParseError as ex:
             fp = str(ex.msg).replace('Failed to parse doctest in ', '')
             return [Sym('parseerror'), Sym(fp)]
